@@ -216,6 +216,18 @@ pub fn judge(_cfg: &Config, case: &Case, l: &mut Local, stratum: &str) {
                     }
                     if let Ok(y) = guard(|| m.to_mt()) {
                         compare(mt, text, &y, &events, l, case);
+                        // JSON route: the same message taken through its JSON form must publish the same fields
+                        if let Ok(Ok(j)) = guard(|| m.json())
+                            && let Ok(Ok(m2)) = guard(|| (ops.body_from_json)(&j))
+                            && let Ok(y2) = guard(|| m2.to_mt())
+                            && y2 != y
+                        {
+                            let (t1, t2) = (tok::tokenize(&y), tok::tokenize(&y2));
+                            let k = t1.fields.iter().zip(&t2.fields).position(|(a, b)| a.tag != b.tag || a.content != b.content).unwrap_or(t1.fields.len().min(t2.fields.len()));
+                            let a = t1.fields.get(k).map(|f| f.tag.as_str()).unwrap_or("<end>");
+                            let b = t2.fields.get(k).map(|f| f.tag.as_str()).unwrap_or("<end>");
+                            v(l, "json-route", a, &format!("->{b}"), format!("field {a}: the message read back from its own JSON publishes a different text (field {b} in its place or with other content); first seen in MT{mt}"), case);
+                        }
                     }
                 }
             }
